@@ -246,6 +246,13 @@ def check_history(env, rec, rows):
                 pass
             view = _View()
             view.onsets = em.onsets
+            # every tag of a listed process carries the prefix of the schema (checked before it is stripped for comparison)
+            for label_, seq_ in (("start list", em.base), ("context", em.contexts)):
+                for x in seq_:
+                    if str(x) and add_prefix(strip_prefix(str(x), env.ns), env.ns) != str(x):
+                        rec.violation("C20:namespace:listed-process-lost-the-schema-prefix", where=label_, text=str(x),
+                                      rows=hed, onsets=[t for t, _ in rows], namespace=env.ns)
+                        return
             view.base = [strip_prefix(str(x), env.ns) for x in em.base]
             view.contexts = [strip_prefix(str(x), env.ns) for x in em.contexts]
             view.hed_strings = [strip_prefix(str(x), env.ns) for x in em.hed_strings]
